@@ -14,7 +14,7 @@ def c12(tier):
     wd = vlib.workdir('C12-' + tier)
     verdict = vlib.Verdict('C12')
     plans = [
-        {'kind': 'garbage', 'n': 3000 if q else 100000, 'every': 4 if q else 25, 'maxev': 3 if q else 6},
+        {'kind': 'garbage', 'n': 3000 if q else 100000, 'every': 4 if q else 25, 'maxev': 3 if q else 6, 'lives': '0,10,1000,4000'},
         {'kind': 'alloc', 'count': 4 if q else 60, 'period': 5, 'every': 30 if q else 20, 'maxev': 20},
         {'kind': 'cont', 'count': 3 if q else 40, 'period': 3, 'every': 30 if q else 20, 'maxev': 20},
     ]
@@ -34,7 +34,7 @@ def c12(tier):
         'samples': runs[:6],
         'evaluations': len(runs) * 2 + cov['collection_events_validated'],
         'distinct_nontrivial': len(runs) + cov['snapshots_validated'],
-        'rule': 'garbage loops: 10 allocation kinds x live-set sizes {0,10,1000} x iteration counts n and 10n (n=%d), natural '
+        'rule': 'garbage loops: 14 allocation kinds (pairs, vectors, strings, closures, continuations, continuation chains handed on by the receiver, eval, top-level forms, top-level forms with fresh local names, symbols, bignums, delay-force chains, bulk-builtin bursts, mixed) x live-set sizes {0,10,1000,4000: the last beyond one heap chunk} x iteration counts n and 10n (n=%d), natural '
                 'collection cadence; snapshots at sampled natural collections and at forced collections of generated '
                 'sessions; distinct_nontrivial = loop configurations + snapshots validated' % plans[0]['n'],
         'garbage_runs': len(runs), 'iteration_counts': [plans[0]['n'], 10 * plans[0]['n']],
